@@ -1,6 +1,7 @@
 """C20 — Configuration is validated at start-up and governs behaviour as documented."""
 from .common import *  # noqa: F401,F403
 from .C03 import cx_census, census_walks, cases
+from .C02 import base_fn
 
 
 def P(n):
@@ -188,10 +189,10 @@ def check(cx):
     vp = [e for e in wvp.events if is_call(e, 'verify_password')]
     A, S = ('static', 'utils::ARGON2'), ('static', 'utils::ARGON2_SALT')
     r3.instance('hash: ARGON2.hash_password(password, ARGON2_SALT)')
-    if len(hp) != 1 or hp[0].data['args'][0] != A or not mentions(hp[0].data['args'][1], P('password')) or not mentions(hp[0].data['args'][2], S):
+    if len(hp) != 1 or hp[0].data['args'][0] != A or hp[0].data['args'][1] != P('password') or not mentions(hp[0].data['args'][2], S):
         r3.violation('argon2_hash_password|instance', 'hashing does not use the shared Argon2 instance and salt', loc=fhp)
     r3.instance('verify: ARGON2.verify_password(password, PasswordHash{params from ARGON2, salt ARGON2_SALT, hash from input})')
-    okv = len(vp) == 1 and vp[0].data['args'][0] == A and mentions(vp[0].data['args'][1], P('password'))
+    okv = len(vp) == 1 and vp[0].data['args'][0] == A and vp[0].data['args'][1] == P('password')
     lit_ = [e for e in wvp.events if e.kind == 'adt' and e.data['adt'].endswith('PasswordHash')]
     if okv and len(lit_) == 1:
         f = lit_[0].data['fields']
@@ -211,6 +212,54 @@ def check(cx):
                 okg = True
     if not okg:
         r3.violation('main|gen-hash', 'the -g path does not print argon2_hash_password(<entered password>)', loc='main')
+
+    # ---------------------------------------------------------------- R20.11 the clear text reaches the verifier as the client sent it
+    # "accepting exactly the password it was generated from": besides the shared instance (R20.3) the bytes that are verified must be
+    # the PASS / OPER parameter itself - not a trimmed, case-folded or truncated copy
+    r11 = cx.rule('R20.11', 'the password is verified as sent', floor=4, kind='provenance')
+    CONNP = field(('param', 'conn_state'), 'user_state', 'password')
+    npw = 0
+    for fn, e in census:
+        if e.kind == 'assign' and not e.data.get('init') and isinstance(e.data['lhs'], tuple) and e.data['lhs'][:1] == ('field',) \
+                and e.data['lhs'][2] == 'password' and 'ConnUserState' in repr(e.data.get('lhs_node', {}).get('adt', '')):
+            npw += 1
+            r11.instance('%s: connection password <- %s' % (base_fn(fn), show_term(e.data['rhs'])[:60]))
+            for c_, leaf in term_cases(e.data['rhs']):
+                if sat(And(e.pc, c_)) is None:
+                    continue
+                if leaf not in (('some', P('pass')), ('none',)):
+                    r11.violation('%s|password-altered' % base_fn(fn), 'the connection password is stored as %s, not as the PASS parameter itself'
+                                  % show_term(leaf)[:80], loc=cx.loc(e.node))
+    if npw == 0:
+        raise AnchorLost('no assignment to ConnUserState.password found')
+    want_arg = {'authenticate': ('some_of', CONNP), 'process_oper': P('password')}
+    nver = 0
+    for fn, e in census:
+        if e.kind == 'call' and e.data.get('local') and e.data['name'] in ('argon2_verify_password_async', 'argon2_verify_password'):
+            b = base_fn(fn)
+            if b not in want_arg:
+                if b.startswith('argon2_verify_password_async'):
+                    continue
+                r11.violation('%s|unexpected-verifier-call' % b, 'a password is verified outside authenticate / process_oper', loc=cx.loc(e.node))
+                continue
+            nver += 1
+            a0 = e.data['args'][0]
+            r11.instance('%s verifies %s' % (b, show_term(a0)[:60]))
+            if a0 != want_arg[b]:
+                r11.violation('%s|verified-text' % b, '%s verifies %s instead of the password the client sent' % (b, show_term(a0)[:80]),
+                              loc=cx.loc(e.node))
+    if nver < 2:
+        raise AnchorLost('verifier call sites of authenticate / process_oper not found')
+    # the async wrapper hands both arguments through
+    fa = cx.fn('argon2_verify_password_async')
+    inner = [b_ for b_ in prog.bodies if b_.startswith(fa + '::{closure') ]
+    thru = []
+    for b_ in [fa] + inner:
+        wa = cx.walk(b_, key='census')
+        thru += [e for e in wa.events if e.kind == 'call' and e.data.get('local') and e.data['name'] == 'argon2_verify_password']
+    r11.instance('argon2_verify_password_async -> argon2_verify_password(password, hash_str)')
+    if not thru or any(e.data['args'] != [P('password'), P('hash_str')] for e in thru):
+        r11.violation('argon2_verify_password_async|arguments', 'the async wrapper does not hand (password, hash) through unchanged', loc=fa)
 
     # ---------------------------------------------------------------- R20.4
     r4 = cx.rule('R20.4', 'CLI override census', floor=7, kind='table-agreement')
